@@ -859,3 +859,10 @@ MUTANTS += [
     B("c15-utilisation-bounds-widened", ["C15", "C07"], IND,
       "        self.bounds = (0, 100)", "        self.bounds = (1, 100)"),
 ]
+
+MUTANTS += [
+    # ---- finding #40 (debug-mode SMT export): silent on a repaired copy ----
+    T("c16-repaired-export-asserts-the-tracking-labels", ["C16"], SV,
+      "            if isinstance(self._solver, z3.Optimize):\n                # z3.Optimize has no to_smt2 method\n                outfile.write(self._solver.sexpr())\n            else:\n                outfile.write(self._solver.to_smt2())",
+      "            if isinstance(self._solver, z3.Optimize):\n                # z3.Optimize has no to_smt2 method\n                text = self._solver.sexpr()\n            else:\n                text = self._solver.to_smt2()\n            if self.debug:\n                labels = \"\".join(f\"(assert {label})\\n\" for label in self._tracked_labels)\n                text = text.replace(\"(check-sat)\", labels + \"(check-sat)\")\n            outfile.write(text)"),
+]
